@@ -1,5 +1,5 @@
-CONSTANTS BufSize = 4 MaxRecLen = 9 MaxStmts = 5 Segs = {1, 2} MaxN = 4 MaxAddr = 12
+CONSTANTS BufSize = 4 MaxRecLen = 9 MaxStmts = 5 Segs = {1, 2} MaxN = 4 MaxAddr = 12 MaxSave = 1 BinChunk = 2 Dev = "none"
 CONSTANT Cpus <- MCCpus
 SPECIFICATION Spec
-INVARIANTS FileWellFormed Conservation EntryKept HeadersTruthful LenFits BufInBounds
+INVARIANTS FileWellFormed Conservation EntryKept HeadersTruthful LenFits BufInBounds OpenRecordTracksCounter
 CHECK_DEADLOCK FALSE
